@@ -146,6 +146,18 @@ type locksetEngine struct {
 	extra func(fn *ssa.Function, ins ssa.Instruction) (fkey, lock, access string, ok bool)
 	// LOCK-ORDER: "from->to" -> first witness
 	order map[string]*orderEdge
+	// LOCK-REENTRY: every call site at which a callee takes a lock class that is held at the call
+	selfHeld    []selfEdge
+	privSkipped []selfEdge // call sites under the privilege whose callee would take a held state lock
+	priv        *privAnchors
+	stateLocks map[string]bool
+}
+
+type selfEdge struct {
+	Lock  string
+	Fn    *ssa.Function
+	At    ssa.Instruction
+	Chain []string
 }
 
 func (e *locksetEngine) addOrder(from, to string, fn *ssa.Function, at ssa.Instruction, chain []string) {
@@ -771,11 +783,23 @@ func (e *locksetEngine) applyCall(fn *ssa.Function, ci ssa.CallInstruction, st *
 			rel[k] = true
 		}
 		if collect && out != nil && !deferred {
+			privileged := e.privilegedAt(fn, ci)
 			for m, chain := range sub.Takes {
+				if privileged && e.isStateLock(m) {
+					// under the context privilege the state's slock is a no-op: what the callee `takes` of the
+					// state's own lock is not taken at all
+					if _, held := st.held[m]; held {
+						e.privSkipped = append(e.privSkipped, selfEdge{Lock: m, Fn: fn, At: ci, Chain: append([]string{fname(fn)}, chain...)})
+					}
+					continue
+				}
 				full := append([]string{fname(fn)}, chain...)
 				for h := range st.held {
 					if h == m && sub.Rel[m] {
 						continue // the callee gives the lock up before it takes it again
+					}
+					if h == m {
+						e.selfHeld = append(e.selfHeld, selfEdge{Lock: m, Fn: fn, At: ci, Chain: full})
 					}
 					e.addOrder(h, m, fn, ci, full)
 				}
@@ -1285,6 +1309,48 @@ func (e *locksetEngine) acquires(in ssa.Instruction, lock string) bool {
 			continue
 		}
 		if _, ok := e.analyze(callee, specOf(c, callee)).Acq[lock]; ok {
+			return true
+		}
+	}
+	return false
+}
+
+// privilegedAt: a grant of the context privilege dominates the call and no revoke lies between (the idiom around
+// hook calls: withPrivilege(ctx); defer withoutPrivilege(ctx); hook(...)).
+func (e *locksetEngine) privilegedAt(fn *ssa.Function, at ssa.Instruction) bool {
+	if e.priv == nil {
+		e.priv = findPrivAnchors(e.w)
+	}
+	p := e.priv
+	priv := false
+	allInstrs(fn, func(in ssa.Instruction) {
+		if priv {
+			return
+		}
+		if _, isDefer := in.(*ssa.Defer); isDefer || !p.isGrant(in) {
+			return
+		}
+		if instrDominates(in, at) && between(fn, in, at, func(x ssa.Instruction) bool {
+			_, isDefer := x.(*ssa.Defer)
+			return !isDefer && p.isRevoke(x)
+		}) == nil {
+			priv = true
+		}
+	})
+	return priv
+}
+
+// isStateLock: the lock class belongs to a State implementation (the locks whose acquisition the privilege skips).
+func (e *locksetEngine) isStateLock(id string) bool {
+	if e.stateLocks == nil {
+		e.stateLocks = map[string]bool{}
+		a := newLocAnchors(e.w)
+		for nt := range a.stateImp {
+			e.stateLocks[typeKey(nt)] = true
+		}
+	}
+	for owner := range e.stateLocks {
+		if strings.HasPrefix(id, owner+".") {
 			return true
 		}
 	}
